@@ -10,6 +10,7 @@
 /* ---------------- programs ---------------- */
 typedef struct {
     uint8_t key[48], tweak[16], counter[16], data[400], tw[400];
+    uint8_t counter2[16];      /* P_SEEK: the counter of the second set_counter */
 } Secret;
 
 typedef struct {
@@ -27,9 +28,10 @@ static struct {
 
 extern uint8_t ctl_table_sbox(uint8_t x);
 
-enum { P_BLOCK, P_TWEAKED, P_MANTIS, P_CTR, P_PAR, P_CONTROL };
+enum { P_BLOCK, P_TWEAKED, P_MANTIS, P_CTR, P_PAR, P_CONTROL, P_SEEK };
 static const char *PNAME[] = {"set_key+ecb_encrypt+ecb_decrypt", "set_tweaked_key+set_tweak+ecb", "mantis set_key/set_tweak/crypt/crypt_tweaked/swap_modes",
-                              "ctr set_key/set_tweak/set_counter/encrypt/rekey/encrypt", "parallel set_key/encrypt/decrypt", "CONTROL table-lookup S-box"};
+                              "ctr set_key/set_tweak/set_counter/encrypt/rekey/encrypt", "parallel set_key/encrypt/decrypt", "CONTROL table-lookup S-box",
+                              "ctr set_key/set_counter/encrypt(part of a batch)/set_counter/encrypt"};
 
 static inline void ct_prog_body(const Pub *p, const Secret *s)
 {
@@ -55,6 +57,14 @@ static inline void ct_prog_body(const Pub *p, const Secret *s)
         ctr_set_key(p->c, &O.co, s->key + 1, p->c == CK_MANTIS ? 16 : (unsigned)cipher_bs(p->c), (unsigned)p->rounds);   /* mid-stream re-key: keystream reset path */
         ctr_encrypt(p->c, &O.co, O.out2, s->data + 7, (size_t)(p->size > 40 ? 40 : p->size));
         break;
+    case P_SEEK:      /* a second set_counter while part of a keystream batch is still unread, no re-key in between */
+        if (p->tweaked) { ctr_set_tweaked_key(p->c, &O.co, s->key, (unsigned)p->klen); ctr_set_tweak(p->c, &O.co, s->tweak, (unsigned)p->tlen); }
+        else { ctr_set_key(p->c, &O.co, s->key, (unsigned)p->klen, (unsigned)p->rounds); if (p->c == CK_MANTIS) ctr_set_tweak(p->c, &O.co, s->tweak, 8); }
+        ctr_set_counter(p->c, &O.co, s->counter, (unsigned)p->clen);
+        ctr_encrypt(p->c, &O.co, O.out, s->data, (size_t)p->size);
+        ctr_set_counter(p->c, &O.co, s->counter2, (unsigned)p->clen);
+        ctr_encrypt(p->c, &O.co, O.out2, s->data + 7, 40);
+        break;
     case P_PAR:
         par_set_key(p->c, &O.po, s->key, (unsigned)p->klen, (unsigned)p->rounds, p->mode);
         par_crypt(p->c, &O.po, O.out, s->data, s->tw, (size_t)p->size, 0);
@@ -69,7 +79,22 @@ static inline void ct_prog_body(const Pub *p, const Secret *s)
 static void base_secret(Secret *s)
 {
     lcg_fill(s->key, 48, 501 + (uint32_t)g_opts.seed); lcg_fill(s->tweak, 16, 502); lcg_fill(s->counter, 16, 503);
-    lcg_fill(s->data, sizeof(s->data), 504); lcg_fill(s->tw, sizeof(s->tw), 505);
+    lcg_fill(s->data, sizeof(s->data), 504); lcg_fill(s->tw, sizeof(s->tw), 505); lcg_fill(s->counter2, 16, 506);
+}
+
+
+/* P_SEEK: the second counter in a fixed relation to the first (same value, the blocks of the batch
+ * that is still buffered, the blocks just before and after it): k-th alternative, 0 when exhausted */
+static inline int ct_related_counter(const Pub *p, const Secret *base, Secret *alt, int k)
+{
+    static const int OFFS[] = {0, 1, 2, 3, 4, 5, 6, 7, 8, 9, 15, 16, 17, 31, 32, 33, -1, -2, -7, -8, -9, -16, -17, 255, 256, -256};
+    int L = p->clen, i; long carry;
+    if (k < 0 || k >= (int)(sizeof(OFFS) / sizeof(OFFS[0])) || L < 1) return 0;
+    *alt = *base;
+    memcpy(alt->counter2, base->counter, 16);
+    carry = OFFS[k];
+    for (i = L - 1; i >= 0; --i) { long v = (long)alt->counter2[i] + (carry & 0xFF) ; long c2 = carry >> 8; alt->counter2[i] = (uint8_t)v; carry = c2 + (v >> 8); }
+    return 1;
 }
 
 /* the standard list of public-parameter combinations */
@@ -94,6 +119,13 @@ static int ct_combos(Pub *out, int cap, int thorough)
             if (c == CK_MANTIS) { p.klen = 16; p.rounds = kv ? 8 : 5; p.clen = kv ? 8 : 3; }
             else { p.tweaked = kv >= 2; p.klen = (kv & 1) ? 2 * bs : bs; p.tlen = kv == 3 ? 5 : bs; p.clen = (kv & 1) ? bs : bs - 2; if (kv == 1) p.klen = 3 * bs; }
             if (!thorough && kv >= 2 && si != 3 && si != 5) continue;
+            CT_ADD();
+        }
+        for (si = 0; si < 3; ++si) for (kv = 0; kv < 2; ++kv) {
+            memset(&p, 0, sizeof(p)); p.prog = P_SEEK; p.c = (Cipher)c; p.be = be; p.size = si == 0 ? bs + 4 : (si == 1 ? batch / 2 + 1 : batch + 3);
+            if (c == CK_MANTIS) { p.klen = 16; p.rounds = kv ? 8 : 6; p.clen = kv ? 8 : 5; }
+            else { p.tweaked = kv; p.klen = kv ? bs : 2 * bs; p.tlen = bs; p.clen = kv ? bs - 1 : bs; }
+            if (!thorough && kv && si != 1) continue;
             CT_ADD();
         }
         for (si = 0; si < 4; ++si) for (kv = 0; kv < 2; ++kv) {
